@@ -13,7 +13,7 @@ RULE = ("(a) probe_fs (links /repo's libfs) maps seeded files -- 0..100 data seg
         "multiples of 4 KiB, written with and without fsync (delayed allocation), on ext4 (FIEMAP, paged by 32) and tmpfs (no FIEMAP: "
         "map_extents must say None, segment search still checked); the harness reads the file back and requires every byte outside the "
         "ranges returned by map_extents, merge_extents(map_extents) and successive next_sparse_segments calls to be zero, and the "
-        "ranges to be ordered and non-overlapping; (b) merge_extents alone: exhaustive over all sorted non-overlapping extent lists "
+        "ranges to be ordered and non-overlapping; (b) merge_extents alone: exhaustive over all start-sorted lists of up to K extents over a small universe that overlap, nest or contain empty extents (coverage and boundaries demanded), and exhaustive over all sorted non-overlapping extent lists "
         "with offsets in 0..=U (output sorted/disjoint, covers every input, boundaries are input boundaries) plus random lists over "
         "u64 incl. values near u64::MAX; (c) auxiliary: valgrind memcheck over the >32-extent mapping (FIEMAP buffer contract) and, in "
         "the thorough tier, Miri over libfs's merge unit test. distinct_nontrivial = distinct (fs, segment-count class, first/last "
@@ -75,6 +75,8 @@ def gen_cases(tier, seed):
                "seed": r.randrange(1, 1 << 30), "first0": False, "lastbyte": False, "dense": False, "huge": True}
     yield {"kind": "merge-exhaustive", "U": 14 if tier == "quick" else 18}
     yield {"kind": "merge-exhaustive-flags", "U": 9 if tier == "quick" else 11}   # every assignment of the `shared` flag as well
+    # start-sorted lists that overlap, nest, repeat a start or contain empty extents (coverage and boundaries only)
+    yield {"kind": "merge-exhaustive-overlap", "U": 7 if tier == "quick" else 9, "K": 3 if tier == "quick" else 4}
     for k in range(4 if tier == "quick" else 32):
         yield {"kind": "merge-random", "seed": r.randrange(1, 1 << 30), "n": 20000 if tier == "quick" else 200000}
     yield {"kind": "memcheck", "seed": r.randrange(1, 1 << 30)}
@@ -173,8 +175,8 @@ def run_case(case):
     k = case["kind"]
     if k == "file":
         run_file(case, res)
-    elif k in ("merge-exhaustive", "merge-random", "merge-exhaustive-flags"):
-        argv = [PROBE_BIN["probe_fs"], k] + ([str(case["U"])] if k != "merge-random" else [str(case["seed"]), str(case["n"])])
+    elif k in ("merge-exhaustive", "merge-random", "merge-exhaustive-flags", "merge-exhaustive-overlap"):
+        argv = [PROBE_BIN["probe_fs"], k] + ([str(case["U"])] + ([str(case["K"])] if "K" in case else []) if k != "merge-random" else [str(case["seed"]), str(case["n"])])
         r = subprocess.run(argv, capture_output=True, timeout=3000)
         out = r.stdout.decode()
         try:
@@ -189,6 +191,9 @@ def run_case(case):
             res["counters"]["merge-exhaustive-with-shared-flags-universe"] = j["universe"]
             res["counters"]["merge-exhaustive-with-shared-flags-lists"] = j["lists"]
             res["evals"].append({"key": ["merge-exhaustive-flags", j["universe"]]})
+        elif k == "merge-exhaustive-overlap":
+            res["counters"]["merge-exhaustive-overlapping-lists"] = j["lists"]
+            res["evals"].append({"key": ["merge-exhaustive-overlap", j["universe"], j["max_extents"]]})
         elif k == "merge-exhaustive":
             res["counters"]["merge-exhaustive-universe"] = j["universe"]
             res["counters"]["merge-exhaustive-lists"] = j["lists"]
